@@ -406,3 +406,15 @@ Definition shraw_close (w : shraw) : result (list slot * nat) :=
    its plate (an int), in the order of the plates dict ---- *)
 Definition size_scorer : scorer_fn :=
   fun plates => map (fun kp => (fst kp, Z.of_nat (length (snd kp)))) plates.
+
+(* ---- gap review G6.1: a scorer that is NOT a function of the plate ----
+   RandomScorer, or a DBAL scorer that sub-samples triples, answers differently each time it is called: the score a plate
+   gets depends on WHICH call (the position of the chunk file in the combine order) scored it, so with a chunk repeated
+   one plate carries two different scores in the combined holder.  [pscorer_t]: the scorer of the call at position pos. *)
+Definition pscorer_t := nat -> scorer_t.
+Definition positions {A : Type} (l : list A) : list (nat * A) := combine (seq 0 (length l)) l.
+Definition pipeline_pos (scorer : pscorer_t) (policy : option policy_t) (s : screen) (batch : list Z)
+  (n_chunks : Z) (order : list Z) : result (option Z) :=
+  dor hs <- res_map_all (fun pk => load_chunk (scorer (fst pk)) s batch n_chunks (snd pk)) (positions order);
+  dor h <- h_concat hs;
+  select_next policy s batch h.
